@@ -267,7 +267,7 @@ private:
         return false;
       }
 
-      auto prev_prev = prev->prev.load(std::memory_order_relaxed);
+      auto prev_prev = prev->prev.load(std::memory_order_acquire);
       auto prev_stamp = prev->stamp.load(std::memory_order_relaxed);
 
       // check if prev has been removed
